@@ -52,15 +52,24 @@ def build_ff(case):
         block = Block(force_field=ff)
         block.name = b['name']
         names = []
+        # node keys of a block are the atom names (as the .ff reader makes them) or something else (blocks built in code,
+        # read from itp-like sources): the atom name is an attribute either way
+        numbered = b.get('keys') == 'numbers'
+        key_of = {}
         for nm in b['atoms']:
             if nm not in names:
                 names.append(nm)
-                block.add_atom({'atomname': nm, 'resname': b['name']})
+                if numbered:
+                    key_of[nm] = 10 + 3 * len(names)
+                    block.add_node(key_of[nm], atomname=nm, resname=b['name'])
+                else:
+                    key_of[nm] = nm
+                    block.add_atom({'atomname': nm, 'resname': b['name']})
         edges = set()
         for i, j in b['edges']:
             a, c = names[i % len(names)], names[j % len(names)]
             if a != c:
-                block.add_edge(a, c)
+                block.add_edge(key_of[a], key_of[c])
                 edges.add(frozenset((a, c)))
         ff.blocks[b['name']] = block
         blocks[b['name']] = (names, edges)
@@ -355,6 +364,7 @@ def strategy(tier):
     block = st.fixed_dictionaries({
         'atoms': st.lists(st.sampled_from(ATOM_NAMES), min_size=2, max_size=6, unique=True),
         'edges': st.lists(st.tuples(st.integers(0, 5), st.integers(0, 5)).map(list), min_size=1, max_size=4),
+        'keys': st.sampled_from(['names', 'names', 'numbers']),
     })
     return st.fixed_dictionaries({
         'blocks': st.tuples(block, block).map(lambda t: [dict(t[0], name='ALA'), dict(t[1], name='LIG')]),
